@@ -434,6 +434,9 @@ def run(chk):
     common.builder_rules(chk, P, "C20", lambda b: (b.crate == "emit_core" and b.file.endswith("src/runtime.rs") and "Runtime::<" in b.key)
                          or (b.crate == "emit" and b.file.endswith("src/setup.rs") and "Setup::<" in b.key), 18)
     common.arg_agreement_rule(chk, P, "C20", [("emit_core", "src/runtime.rs"), ("emit", "src/setup.rs")], 3)
+    # what the installed runtime does with a call: its own components, its own pipeline, flush forwarded unconditionally
+    from . import c01
+    c01.runtime_rules(chk, P, "C20.runtime")
     from . import witness
     witness.witness_rule(chk, "C20", 3)
     if chk.tier == "thorough":
